@@ -722,7 +722,8 @@ func (server *Server) registerCoreExecutors() {
 			return nil, err
 		}
 
-		msg, err := server.userCommandHandler.ZRange(conn, key, start, stop, opt)
+		// The reverse rank range [start, stop] is the rank range [-stop-1, -start-1] read backwards.
+		msg, err := server.userCommandHandler.ZRange(conn, key, -stop-1, -start-1, opt)
 		if err != nil {
 			return msg, err
 		}
